@@ -39,6 +39,12 @@ var thresholds = func() []*big.Int {
 		t, _ := new(big.Int).SetString(h, 16)
 		ts = append(ts, t)
 	}
+	// a top word equal to a fast-path divisor of the division helpers: D * 2^64, D * 2^128
+	for _, d := range []uint64{10, 100, 1000, 10000, 100000000, 10000000000000000000} {
+		for _, sh := range []uint{64, 128} {
+			ts = append(ts, new(big.Int).Lsh(new(big.Int).SetUint64(d), sh))
+		}
+	}
 	return ts
 }()
 
@@ -58,6 +64,54 @@ func (r *RNG) ThresholdInt64() (int64, int) {
 		}
 	}
 	return 1, 0
+}
+
+// fastPathDivisors are the constants the multi-word division helpers compare a
+// top word against (n[top] < D selects a one-step division).
+var fastPathDivisors = []uint64{10, 100, 1000, 10000, 100000000, 10000000000000000000}
+
+// ProductTargetPair returns coefficients a, b (both valid, b possibly short)
+// whose exact product lands next to an intermediate threshold of the wide
+// multiplication pipeline: a top word equal to a fast-path divisor
+// (D*2^(64j) .. (D+1)*2^(64j)), a word boundary 2^(64j), or those times the
+// powers of ten the pipeline divides out first. The product of the encoded
+// coefficients - a joint condition on both operands - is what is steered.
+func (r *RNG) ProductTargetPair() (*big.Int, *big.Int, bool) {
+	for try := 0; try < 30; try++ {
+		j := uint(64 * r.Range(1, 3))
+		var t *big.Int
+		if r.Chance(3, 4) {
+			d := new(big.Int).SetUint64(fastPathDivisors[r.Intn(len(fastPathDivisors))])
+			d.Add(d, big.NewInt(int64(r.Pick(0, 0, 0, -1, 1))))
+			t = new(big.Int).Lsh(d, j)
+		} else {
+			t = new(big.Int).Lsh(ref.One, j+uint(r.Pick(0, 0, 63, 1)))
+		}
+		// somewhere inside the window above the threshold (or just below it)
+		off := r.BigBelow(new(big.Int).Lsh(ref.One, j))
+		if r.Chance(1, 8) {
+			off.Neg(new(big.Int).SetUint64(r.U64() >> uint(r.Intn(64))))
+		}
+		t.Add(t, off)
+		t.Mul(t, ref.Pow10(r.Pick(0, 0, 19, 38, 4, 8, 12, 23, 27)))
+		if t.Sign() <= 0 {
+			continue
+		}
+		a, _ := r.Coef()
+		if a.Sign() == 0 || r.Bool() {
+			a = r.BigBelow(new(big.Int).Lsh(ref.One, uint(r.Range(1, 113))))
+			a.Add(a, ref.One)
+		}
+		if a.Cmp(ref.Cmax) > 0 {
+			continue
+		}
+		b := new(big.Int).Quo(t, a)
+		if b.Sign() <= 0 || b.Cmp(ref.Cmax) > 0 {
+			continue
+		}
+		return a, b, true
+	}
+	return nil, nil, false
 }
 
 // WordImage returns a coefficient built from one part of c's multi-word or
